@@ -1142,8 +1142,12 @@ class Compiler(object):
         return type_descriptor, module_name
 
     def copy(self, compiled_type):
-        if not isinstance(compiled_type, Recursive):
-            compiled_type = copy(compiled_type)
+        compiled_type = copy(compiled_type)
+
+        # A copy of the placeholder of a recursive type gets its
+        # inner type like the original does.
+        if isinstance(compiled_type, Recursive):
+            self.recursive_types.append(compiled_type)
 
         return compiled_type
 
